@@ -30,18 +30,20 @@ from ..tlc import MachineryError
 LEVEL = "model_checking"
 AREA = "locals"
 BUGS = ("setattr", "delattr", "release", "push", "pop", "release_stack", "proxy_early", "spawn_fresh",
-        "release_all", "falsy_unbound", "iop_rebind", "mgr_iter", "cleanup_first", "mw_forget")
-BUGS_QUICK = ("setattr", "pop", "release", "proxy_early", "falsy_unbound", "iop_rebind", "mgr_iter", "mw_forget")
+        "release_all", "falsy_unbound", "iop_rebind", "mgr_iter", "cleanup_first", "mw_forget", "mw_counter", "cv_lookup")
+BUGS_QUICK = ("setattr", "pop", "release", "proxy_early", "falsy_unbound", "iop_rebind", "mgr_iter", "mw_counter",
+              "cv_lookup")
 MUTATORS = {"set", "del", "release", "push", "pop", "release_stack", "cleanup", "proxy_mutate", "proxy_pop",
             "proxy_clear", "proxy_iadd", "proxy_isub", "proxy_ior", "proxy_imul", "mw", "release_dunder",
-            "release_stack_dunder", "pop_all"}
-RELEASE_PATHS = {"release", "release_stack", "cleanup", "release_dunder", "release_stack_dunder", "mw", "pop_all"}
+            "release_stack_dunder", "pop_all", "mw_enter", "mw_close", "cv_set"}
+RELEASE_PATHS = {"release", "release_stack", "cleanup", "release_dunder", "release_stack_dunder", "mw", "pop_all",
+                 "mw_close"}
 
 
 def _job(job):
     """Executed in a worker process: one behaviour in one realisation -> trace lines."""
-    real, ops, made = job
-    return loc.run_trace(real, ops, made=made)
+    real, ops, made, ctor = job
+    return loc.run_trace(real, ops, made=made, ctor=ctor)
 
 
 def _nontrivial(ops) -> bool:
@@ -56,14 +58,15 @@ def _nontrivial(ops) -> bool:
 
 
 def judge_jobs(ctx: Ctx, jobs, kind="c18"):
-    """jobs: list of (realisation, ops, made).  Runs them on the real code, judges with TLC."""
+    """jobs: list of (realisation, ops, made, constructor variant).  Runs them on the real code,
+    judges with TLC."""
     results = pmap(_job, jobs, workers=min(ctx.workers, 16), chunksize=8)
     # Recorded traces that are identical line by line (typically the three realisations of one
     # behaviour) are handed to the judge once; TLC's verdict on that text is the verdict for each
     # of them (the judge does not look at the realisation tag).
     lines, cases, seen = [], {}, {}
     executed = 0
-    for (real, ops, made), tl in zip(jobs, results):
+    for (real, ops, made, ctor), tl in zip(jobs, results):
         ctx.count(len(ops))
         executed += len(tl)
         if _nontrivial(ops):
@@ -82,7 +85,7 @@ def judge_jobs(ctx: Ctx, jobs, kind="c18"):
                 ln["t"] = t
             lines.extend(tl)
             cases[t] = []
-        cases[t].append((real, ops, made))
+        cases[t].append((real, ops, made, ctor))
     ctx.notes["trace_lines_recorded"] = ctx.notes.get("trace_lines_recorded", 0) + executed
     ctx.notes["trace_lines_distinct_judged"] = ctx.notes.get("trace_lines_distinct_judged", 0) + len(lines)
     ndrift = len(ctx.model_drift)
@@ -93,15 +96,39 @@ def judge_jobs(ctx: Ctx, jobs, kind="c18"):
         # is broken, nothing may be concluded
         raise MachineryError(f"LocalsTrace reported drift (harness problem): {ctx.model_drift[ndrift:ndrift + 3]}")
     for r in rejects:
-        for real, ops, made in cases[r["t"]]:
+        for real, ops, made, ctor in cases[r["t"]]:
             op = ops[r["i"]]
-            case = {"real": real, "made": list(made), "ops": ops[: r["i"] + 1]}
+            case = {"real": real, "made": list(made), "ctor": ctor, "ops": ops[: r["i"] + 1]}
             ctx.violation(f"{r['clause']}:{op['op']}:{real}", r["clause"], case, kind=kind)
     return lines
 
 
-def _three_ways(ops, made):
-    return [(real, ops, made) for real in loc.REALISATIONS]
+def _three_ways(ops, made, ctor="default"):
+    return [(real, ops, made, ctor) for real in loc.REALISATIONS]
+
+
+def fresh_read_jobs():
+    """Reads before any write, for every constructor variant x proxy construction form x
+    realisation: the root context (empty Context / fresh thread / fresh task) and the main context
+    read everything, then every kind of proxy is created and read, then the release paths run on
+    the still empty locals, and everything is read again."""
+    jobs = []
+    kinds = ["x", loc.TOP, loc.CVK, loc.FNK]
+    for ctor in loc.CTORS:
+        for how in (0, 1, 2):
+            ops = [loc.mkop(1, "nop"), loc.mkop(1, "get", n="x"), loc.mkop(1, "iter"), loc.mkop(1, "top"),
+                   loc.mkop(1, "pop"), loc.mkop(1, "del", n="x")]
+            ops += [loc.mkop(1, "mkproxy", k=k, v=how) for k in kinds]
+            ops += [loc.mkop(1, "nop")] + [loc.mkop(1, "proxy_read", k=k) for k in kinds]
+            ops += [loc.mkop(1, "proxy_mutate", k=loc.CVK, v=1), loc.mkop(1, "proxy_iadd", k=loc.FNK, v=1),
+                    loc.mkop(1, "spawn", child=2), loc.mkop(2, "nop"), loc.mkop(2, "release"),
+                    loc.mkop(2, "release_stack_dunder"), loc.mkop(2, "cleanup"), loc.mkop(2, "pop_all"),
+                    loc.mkop(2, "mw", v=1, k="deco"), loc.mkop(2, "nop"),
+                    # ... and after the first writes the main context still sees nothing
+                    loc.mkop(2, "set", n="x", b=1), loc.mkop(2, "push", b=5), loc.mkop(2, "cv_set", b=9),
+                    loc.mkop(1, "nop"), loc.mkop(2, "nop")]
+            jobs += _three_ways(ops, [], ctor)
+    return jobs
 
 
 def export_tours(ctx: Ctx, cfg, recs, rng, maxlen):
@@ -177,7 +204,7 @@ def judge_selftest(ctx: Ctx):
         # under test (the self-test cannot be evaluated on such a tree), not a machinery failure
         r = clean[0]
         ctx.violation(f"{r['clause']}:{ops[r['i']]['op']}:copy_context", r["clause"],
-                      {"real": "copy_context", "made": [], "ops": ops[: r["i"] + 1]}, kind="c18")
+                      {"real": "copy_context", "made": [], "ctor": "default", "ops": ops[: r["i"] + 1]}, kind="c18")
         return
     if set(rejected) != set(names) - {"clean"}:
         raise MachineryError(f"LocalsTrace self-test failed: {rejected}")
@@ -219,11 +246,13 @@ def run(ctx: Ctx):
     # 1. model checking -------------------------------------------------------------------------
     # (independent TLC runs, started side by side: most of their wall time is JVM start-up)
     w = max(2, ctx.workers // 2)
-    with cf.ThreadPoolExecutor(max_workers=6) as ex:
+    with cf.ThreadPoolExecutor(max_workers=8) as ex:
         futs = [ex.submit(ctx.model_check, AREA, "MCLocals", "MCQ_laws", timeout=600, workers=w),
                 ex.submit(ctx.model_check, AREA, "LocalsImpl", "MCQ_impl", timeout=900, workers=w),
                 ex.submit(ctx.model_check, AREA, "LocalsImpl", "MCQ_iop", timeout=900, workers=w),
                 ex.submit(ctx.model_check, AREA, "LocalsImpl", "MCQ_rel", timeout=900, workers=w),
+                ex.submit(ctx.model_check, AREA, "LocalsImpl", "MCQ_ovl", timeout=900, workers=w),
+                ex.submit(ctx.model_check, AREA, "LocalsImpl", "MCQ_kinds", timeout=900, workers=w),
                 ex.submit(refute_bugs, ctx, BUGS_QUICK if q else BUGS),
                 ex.submit(judge_selftest, ctx)]
         for f in futs:
@@ -235,18 +264,24 @@ def run(ctx: Ctx):
         ctx.model_check(AREA, "LocalsImpl", "MCT_impl_full2", timeout=3000)
         ctx.model_check(AREA, "LocalsImpl", "MCT_iop", timeout=3000)
         ctx.model_check(AREA, "LocalsImpl", "MCT_rel", timeout=3000)
+        ctx.model_check(AREA, "LocalsImpl", "MCT_ovl", timeout=3000)
     ctx.exhaustive = True
     phases["model_checking"] = round(ctx.elapsed() - t0, 1)
     t0 = ctx.elapsed()
     # 2. spec -> code: tours over the exported transition system ----------------------------------
     jobs = []
-    cfgs = (["MCX_q", "MCX_qm", "MCX_q3", "MCX_qf", "MCX_qi", "MCX_qr"] if q
-            else ["MCX_q", "MCX_qm", "MCX_q3", "MCX_qf", "MCX_qi", "MCX_qr", "MCX_t", "MCX_t3", "MCX_tf", "MCX_ti", "MCX_tr"])
-    with cf.ThreadPoolExecutor(max_workers=4) as ex:
+    cfgs = (["MCX_q", "MCX_qm", "MCX_q3", "MCX_qf", "MCX_qi", "MCX_qr", "MCX_qo", "MCX_qk"] if q
+            else ["MCX_q", "MCX_qm", "MCX_q3", "MCX_qf", "MCX_qi", "MCX_qr", "MCX_qo", "MCX_qk", "MCX_t", "MCX_t3",
+                  "MCX_tf", "MCX_ti", "MCX_tr", "MCX_to"])
+    with cf.ThreadPoolExecutor(max_workers=8) as ex:
         exported = list(ex.map(lambda c: ctx.export(AREA, "MCLocals", c, count_states=False, timeout=1200), cfgs))
+    jobs += fresh_read_jobs()
+    ntour = 0
     for cfg, recs in zip(cfgs, exported):
         for p, made in export_tours(ctx, cfg, recs, rng, maxlen=30 if q else 100):
-            jobs += _three_ways(p, made)
+            # every tour starts with the reads-before-any-write step; constructor variants rotate
+            jobs += _three_ways([loc.mkop(1, "nop")] + p, made, loc.CTORS[ntour % len(loc.CTORS)])
+            ntour += 1
     ctx.notes["tour_traces"] = len(jobs)
     phases["export_and_tours"] = round(ctx.elapsed() - t0, 1)
     t0 = ctx.elapsed()
@@ -256,7 +291,7 @@ def run(ctx: Ctx):
         nctx = rng.choice([2, 3, 3, 4])
         made = rng.choice([(), (), ("x",), (loc.TOP,), ("x", "y", loc.TOP)])
         ops = loc.random_ops(rng, rng.randint(8, 40 if q else 80), nctx=nctx, made=made)
-        jobs += _three_ways(ops, list(made))
+        jobs += _three_ways(ops, list(made), rng.choice(loc.CTORS))
         if i < 3:
             ctx.sample({"realisations": list(loc.REALISATIONS), "made": list(made),
                         "ops": [_short(o) for o in ops[:12]], "length": len(ops)})
@@ -275,4 +310,4 @@ def replay(ctx: Ctx, data):
     case = data["case"]
     ops = case["ops"]
     ctx.sample({"real": case["real"], "made": case["made"], "ops": [_short(o) for o in ops]})
-    judge_jobs(ctx, [(case["real"], ops, list(case["made"]))], kind=data.get("kind", "c18"))
+    judge_jobs(ctx, [(case["real"], ops, list(case["made"]), case.get("ctor", "default"))], kind=data.get("kind", "c18"))
